@@ -110,3 +110,680 @@ Proof.
   intros s e I0 H. unfold HistIds. destruct (hist_step s e) as [->| ->]; [exact H|].
   constructor; [|exact H]. apply (Inv0_step s e I0).
 Qed.
+
+(* ------------------------------------------------------------------ one mutation per snapshot window *)
+(* the micro-steps that change a topic's persisted form without holding the NSQD lock *)
+Definition mut_micro (m : micro) : bool :=
+  match m with
+  | MInsertChan _ _ _ | MDropChans _ _ | MRemoveChan _ _ _ | MFlipTopic _ _ _ | MFlipChan _ _ _ _ _ => true
+  | _ => false
+  end.
+Definition snapping (s : st) : bool :=
+  match lock s with Some j => match j_phase j with PSnap => true | _ => false end | None => false end.
+Definition is_mut_step (s : st) (e : ev) : bool :=
+  match e with
+  | EStep i => match get_thread i (threads s) with Some (m :: _) => mut_micro m | _ => false end
+  | _ => false
+  end.
+(* mutation steps executed since the running GetMetadata began *)
+Definition wcount (n : nat) (s : st) (e : ev) : nat :=
+  if snapping (step s e) then (if snapping s then (if is_mut_step s e then S n else n) else 0) else 0.
+Fixpoint single_from (s : st) (n : nat) (evs : list ev) : Prop :=
+  match evs with
+  | [] => True
+  | e :: r => wcount n s e <= 1 /\ single_from (step s e) (wcount n s e) r
+  end.
+(* no GetMetadata has two mutation steps between its first and its last topic read *)
+Definition Single (evs : list ev) : Prop := single_from init 0 evs.
+
+Definition unfilled_agree (sl : list (N * name * option dtopic)) (L l : live) : Prop :=
+  forall g n, In (g, n, None) sl ->
+    option_map snap_topic (get_topic g n L) = option_map snap_topic (get_topic g n l).
+Definition Dirty (s : st) (j : job) (L : live) : Prop :=
+  In L (hist s) /\ NoDup (map t_id L) /\ map fst (j_slots j) = map idname (filter keep_topic L) /\
+  slots_fresh (j_slots j) L /\ unfilled_agree (j_slots j) L (live_ s).
+Definition from_one (H : list live) (d : doc) : Prop := exists L, In L H /\ d = snapshot L.
+Definition Lin (s : st) (n : nat) : Prop :=
+  (forall c, dat (fs s) = Some c -> from_one (hist s) (f_doc c)) /\
+  (forall j, lock s = Some j ->
+     match j_phase j with
+     | PSnap => slots_fresh (j_slots j) (live_ s) \/ (n = 1 /\ exists L, Dirty s j L)
+     | _ => from_one (hist s) (j_doc j)
+     end).
+
+Lemma from_one_mono : forall H x d, from_one H d -> from_one (x :: H) d.
+Proof. intros H x d (L & HL & E). exists L. split; [right; exact HL|exact E]. Qed.
+
+Lemma from_one_step : forall s e d, from_one (hist s) d -> from_one (hist (step s e)) d.
+Proof. intros s e d H. destruct (hist_step s e) as [->| ->]; [exact H|apply from_one_mono; exact H]. Qed.
+
+Lemma fill_in_none : forall l i sl g n, In (g, n, None) (fill l i sl) -> In (g, n, None) sl.
+Proof.
+  intros l i sl. revert i. induction sl as [|x r IH]; intros i g n H; [destruct i; contradiction|].
+  destruct i; cbn in H.
+  - destruct H as [H|H]; [|right; exact H]. destruct x as [[g0 n0] o]. cbn in H.
+    destruct (get_topic g0 n0 l); discriminate.
+  - destruct H as [H|H]; [left; exact H|right; eapply IH; exact H].
+Qed.
+
+Lemma get_topic_unique' : forall l t, NoDup (map t_id l) -> In t l -> get_topic (t_id t) (t_name t) l = Some t.
+Proof.
+  intros l t H Hin. destruct (get_topic_in _ _ Hin) as [t' Ht']. rewrite Ht'. f_equal.
+  destruct (get_topic_some _ _ _ _ Ht') as (Hin' & Eid & _).
+  apply (nodup_map_inj t_id l); auto.
+Qed.
+
+Lemma name_eq_dec : forall a b : name, {a = b} + {a <> b}.
+Proof. apply list_eq_dec. apply N.eq_dec. Qed.
+
+Lemma filled_dec : forall g n (sl : list (N * name * option dtopic)),
+  (exists e, In (g, n, Some e) sl) \/ ~ (exists e, In (g, n, Some e) sl).
+Proof.
+  intros g n sl. induction sl as [|[[g0 n0] o] sl IH].
+  - right. intros (e & []).
+  - destruct IH as [(e & H)|H]; [left; exists e; right; exact H|].
+    destruct o as [e0|].
+    + destruct (N.eq_dec g0 g) as [->|Hg]; [destruct (name_eq_dec n0 n) as [->|Hn]|].
+      * left. exists e0. left. reflexivity.
+      * right. intros (e & [E|Hin]); [inversion E; congruence|apply H; eauto].
+      * right. intros (e & [E|Hin]); [inversion E; congruence|apply H; eauto].
+    + right. intros (e & [E|Hin]); [discriminate|apply H; eauto].
+Qed.
+
+Lemma idname_nodup : forall l, NoDup (map t_id l) -> NoDup (map idname (filter keep_topic l)).
+Proof.
+  intros l H. induction l as [|t l IH]; cbn; [constructor|]. cbn in H. inversion H; subst.
+  destruct (keep_topic t); [|auto]. cbn. constructor; [|auto].
+  intros Hin. apply H2. apply in_map_iff in Hin. destruct Hin as (t' & E & Hin). apply filter_In in Hin.
+  unfold idname in E. inversion E. apply in_map_iff. exists t'. tauto.
+Qed.
+
+(* what a micro-step can do to live while a persist job holds the lock *)
+Lemma exec_locked_effect : forall pad s i m rest, lock s <> None ->
+  live_ (exec pad s i m rest) = live_ s \/
+  exists g n f, live_ (exec pad s i m rest) = upd_topic g n f (live_ s) /\ keeps_idname f /\
+                (inert n f \/ mut_micro m = true).
+Proof.
+  intros pad s i m rest Hl.
+  assert (Hlf : lock_free s = false) by (unfold lock_free; destruct (lock s); [reflexivity|contradiction]).
+  destruct m; cbn [exec]; rewrite ?Hlf; try (left; reflexivity).
+  - destruct (get_topic g t (live_ s)) as [tp|]; [|left; cbn; rewrite spawn_live; reflexivity].
+    destruct (find_chan c (t_chans tp)); [left; reflexivity|].
+    right. cbn. rewrite spawn_live. cbn. eexists _, _, _. split; [reflexivity|]. split; [intros x; split; reflexivity|right; reflexivity].
+  - destruct (get_topic g t (live_ s)) as [tp|]; [|left; reflexivity]. destruct (t_exiting tp); [left; reflexivity|].
+    right. cbn. rewrite spawn_live. cbn. eexists _, _, _. split; [reflexivity|]. split; [apply keeps_set_texiting|left; apply inert_texiting].
+  - destruct (get_topic g t (live_ s)) as [tp|]; [|left; reflexivity].
+    right. cbn. eexists _, _, _. split; [reflexivity|]. split; [apply keeps_set_chans|right; reflexivity].
+  - destruct (get_topic g t (live_ s)) as [tp|]; [|left; reflexivity].
+    destruct (find (is_chan h c) (t_chans tp)) as [ch|]; [|left; reflexivity]. destruct (c_exiting ch); [left; reflexivity|].
+    right. cbn. rewrite spawn_live. cbn. eexists _, _, _. split; [reflexivity|]. split; [intros x; split; reflexivity|left; apply inert_cexiting].
+  - right. cbn. eexists _, _, _. split; [reflexivity|]. split; [intros x; split; reflexivity|right; reflexivity].
+  - right. cbn. eexists _, _, _. split; [reflexivity|]. split; [apply keeps_set_tpaused|right; reflexivity].
+  - right. cbn. eexists _, _, _. split; [reflexivity|]. split; [intros x; split; reflexivity|right; reflexivity].
+Qed.
+
+Lemma snap_get_upd_inert : forall g n f g' n' l,
+  inert n f -> eph n' = false ->
+  option_map snap_topic (get_topic g' n' (upd_topic g n f l)) = option_map snap_topic (get_topic g' n' l).
+Proof.
+  intros g n f g' n' l [Hk Hi] He. rewrite get_topic_upd by assumption.
+  destruct (get_topic g' n' l) as [t|] eqn:E; [|reflexivity]. cbn. f_equal.
+  destruct (is_topic g n t) eqn:Ei; [|reflexivity].
+  destruct Hi as [Heph|Hs]; [|apply Hs].
+  exfalso. apply is_topic_spec in Ei. destruct (get_topic_some _ _ _ _ E) as (_ & _ & En'). destruct Ei as [_ Ei]. congruence.
+Qed.
+
+Lemma get_upd_other : forall g n f g' n' l, keeps_idname f -> (g', n') <> (g, n) ->
+  get_topic g' n' (upd_topic g n f l) = get_topic g' n' l.
+Proof.
+  intros g n f g' n' l Hk Hne. rewrite get_topic_upd by assumption.
+  destruct (get_topic g' n' l) as [t|] eqn:E; [|reflexivity]. cbn. f_equal.
+  destruct (is_topic g n t) eqn:Ei; [|reflexivity].
+  exfalso. apply is_topic_spec in Ei. destruct (get_topic_some _ _ _ _ E) as (_ & Eg & En). destruct Ei. apply Hne. congruence.
+Qed.
+
+Lemma slots_fst_nodup : forall s j, Inv0 s -> Inv1 s -> lock s = Some j -> j_phase j = PSnap ->
+  NoDup (map fst (j_slots j)) /\ map fst (j_slots j) = map idname (filter keep_topic (live_ s)).
+Proof.
+  intros s j [Hnd _] I1 Hl Eph. destruct (i1_job s I1 j Hl) as [_ Hok]. unfold job_ok in Hok. rewrite Eph in Hok.
+  destruct Hok as [Hs _]. split; [rewrite Hs; apply idname_nodup; exact Hnd|exact Hs].
+Qed.
+
+Lemma nodup_fst_slot : forall (sl : list (N * name * option dtopic)) g n o o',
+  NoDup (map fst sl) -> In (g, n, o) sl -> In (g, n, o') sl -> o = o'.
+Proof.
+  intros sl g n o o' H H1 H2.
+  assert (E : (g, n, o) = (g, n, o')) by (apply (nodup_map_inj fst sl); auto).
+  inversion E. reflexivity.
+Qed.
+
+(* the step of a request thread while a job is reading the topics *)
+Lemma Lin_exec_snap : forall s i m rest j n,
+  Inv0 s -> Inv1 s -> lock s = Some j -> j_phase j = PSnap ->
+  get_thread i (threads s) = Some (m :: rest) ->
+  (slots_fresh (j_slots j) (live_ s) \/ (n = 1 /\ exists L, Dirty s j L)) ->
+  (if mut_micro m then S n else n) <= 1 ->
+  let s' := exec true s i m rest in
+  slots_fresh (j_slots j) (live_ s') \/ ((if mut_micro m then S n else n) = 1 /\ exists L, Dirty s' j L).
+Proof.
+  intros s i m rest j n I0 I1 Hl Eph Hget Hlin Hle s'.
+  destruct (slots_fst_nodup s j I0 I1 Hl Eph) as [Hnd Hs].
+  pose proof (slot_names_kept_inv1 s I1 j Hl Eph) as Hkept.
+  destruct (i1_hist s I1 (proj1 (i1_job s I1 j Hl))) as [r Hr].
+  assert (Hh : hist s' = hist s \/ hist s' = live_ s' :: hist s).
+  { destruct (exec_shape_holds true s i m rest) as (_ & _ & _ & [[_ H]|[H _]] & _); auto. }
+  assert (Hin_mono : forall L, In L (hist s) -> In L (hist s')).
+  { intros L H. destruct Hh as [->| ->]; [exact H|right; exact H]. }
+  assert (Hl_ne : lock s <> None) by congruence.
+  destruct (exec_locked_effect true s i m rest Hl_ne) as [E|(g & nm & f & E & Hk & Hcase)]; fold s' in E.
+  - (* live unchanged *)
+    destruct Hlin as [Hc|(En & L & HL & H2 & H3 & H4 & H5)].
+    + left. rewrite E. exact Hc.
+    + right. split; [destruct (mut_micro m); lia|]. exists L. unfold Dirty. rewrite E. auto 10.
+  - destruct (mut_micro m) eqn:Emut.
+    + (* a mutation: there was none before in this window *)
+      assert (n = 0) by lia. subst n.
+      destruct Hlin as [Hc|(En & _)]; [|discriminate].
+      destruct (filled_dec g nm (j_slots j)) as [(e0 & Hfilled)|Hnot].
+      * right. split; [reflexivity|]. exists (live_ s). unfold Dirty. repeat split.
+        -- apply Hin_mono. rewrite Hr. left. reflexivity.
+        -- apply I0.
+        -- exact Hs.
+        -- exact Hc.
+        -- intros g' n' Hin'. rewrite E. symmetry. rewrite get_upd_other; [reflexivity|exact Hk|].
+           intros Eq. inversion Eq; subst g' n'.
+           pose proof (nodup_fst_slot _ _ _ _ _ Hnd Hin' Hfilled). discriminate.
+      * left. rewrite E. intros g' n' e' Hin'. destruct (Hc g' n' e' Hin') as (t' & Ht' & He').
+        exists t'. split; [|exact He']. rewrite get_upd_other; [exact Ht'|exact Hk|].
+        intros Eq. inversion Eq; subst g' n'. apply Hnot. eauto.
+    + (* not a mutation step: the change is invisible in the persisted form *)
+      destruct Hcase as [Hi|Hd]; [|discriminate].
+      destruct Hlin as [Hc|(En & L & HL & H2 & H3 & H4 & H5)].
+      * left. rewrite E.
+        pose proof (fresh_of_inert (Some j) g nm f (live_ s) None) as F. cbn in F. unfold job_fresh in F. rewrite Eph in F.
+        apply F; [|exact Hi|exact Hc]. intros j0 Ej0. inversion Ej0; subst j0. intros _. exact Hkept.
+      * right. split; [exact En|]. exists L. unfold Dirty. repeat split; auto.
+        intros g' n' Hin'. rewrite E. rewrite snap_get_upd_inert; [apply H5; exact Hin'|exact Hi|eapply Hkept; exact Hin'].
+Qed.
+
+Lemma first_unread_some : forall sl i0, first_unread sl = Some i0 ->
+  exists x, nth_error sl i0 = Some x /\ unread x = true.
+Proof.
+  induction sl as [|y sl IH]; intros i0 H; [discriminate|]. cbn in H.
+  destruct (unread y) eqn:E.
+  - inversion H; subst. exists y. auto.
+  - destruct (first_unread sl) as [i1|] eqn:E1; [|discriminate]. cbn in H. inversion H; subst.
+    destruct (IH i1 eq_refl) as (x & Hx & Hu). exists x. auto.
+Qed.
+
+Definition chosen (sl : list (N * name * option dtopic)) (k : N) (i0 : nat) : nat :=
+  match nth_error sl (N.to_nat k) with Some x => if unread x then N.to_nat k else i0 | None => i0 end.
+
+Lemma chosen_unread : forall sl k i0, first_unread sl = Some i0 ->
+  exists x, nth_error sl (chosen sl k i0) = Some x /\ unread x = true.
+Proof.
+  intros sl k i0 H. unfold chosen. destruct (nth_error sl (N.to_nat k)) as [x|] eqn:E.
+  - destruct (unread x) eqn:Eu; [exists x; auto|apply first_unread_some; exact H].
+  - apply first_unread_some. exact H.
+Qed.
+
+Lemma fill_in_unread : forall l i sl x g n e,
+  nth_error sl i = Some x -> unread x = true -> In (g, n, Some e) (fill l i sl) ->
+  In (g, n, Some e) sl \/ (In (g, n, None) sl /\ (g, n, Some e) = read_slot l (g, n, None)).
+Proof.
+  intros l i sl. revert i. induction sl as [|y r IH]; intros i x g n e Hn Hu H; [destruct i; discriminate|].
+  destruct i; cbn in *.
+  - inversion Hn; subst y. destruct H as [H|H]; [|left; right; exact H].
+    destruct x as [[g0 n0] o]. destruct o; [discriminate|]. right. cbn [read_slot] in H.
+    assert (g0 = g /\ n0 = n) as [-> ->] by (destruct (get_topic g0 n0 l); inversion H; auto).
+    split; [left; reflexivity|]. cbn [read_slot]. symmetry. exact H.
+  - destruct H as [H|H]; [left; left; exact H|].
+    destruct (IH _ _ _ _ _ Hn Hu H) as [H1|[H1 H2]]; [left; right; exact H1|right; split; [right; exact H1|exact H2]].
+Qed.
+
+Lemma Lin_new_job : forall o l lo, slots_fresh (j_slots (new_job o l lo)) l.
+Proof. intros o l lo g n e H. exfalso. eapply slots_new_unfilled. exact H. Qed.
+Lemma Lin_new_slots : forall l0 l, slots_fresh (map slot_of l0) l.
+Proof. intros l0 l g n e H. exfalso. eapply slots_new_unfilled. exact H. Qed.
+
+Lemma Lin_persist : forall s j k n,
+  Inv0 s -> Inv1 s -> HistIds s -> lock s = Some j -> Lin s n ->
+  Lin (persist_step s j k) (if snapping (persist_step s j k) then n else 0).
+Proof.
+  intros s j k n I0 I1 HI Hl [Hdat Hjob].
+  destruct (i1_job s I1 j Hl) as [Hup Hok].
+  destruct (i1_hist s I1 Hup) as [r Hr].
+  specialize (Hjob j Hl). unfold snapping, persist_step in *. unfold job_ok in Hok.
+  destruct (j_phase j) eqn:Eph.
+  - destruct Hok as [Hs Hf].
+    destruct (first_unread (j_slots j)) as [i0|] eqn:Efu.
+    + (* read one more topic *)
+      fold (chosen (j_slots j) k i0).
+      destruct (chosen_unread _ k _ Efu) as (x & Hnth & Hunr).
+      cbn. split; [exact Hdat|]. intros j' Hj'. inversion Hj'; subst j'. cbn.
+      destruct Hjob as [Hc|(En & L & HL & H2 & H3 & H4 & H5)].
+      * left. intros g nm e Hin. destruct (fill_in _ _ _ _ _ _ Hin) as [Hold|[Hin' Hrd]]; [apply (Hc g nm e Hold)|].
+        rewrite Hs in Hin'. destruct (read_slot_ok s g nm e (ex_intro _ r Hr) Hin' Hrd) as (_ & _ & H). exact H.
+      * right. split; [exact En|]. exists L. unfold Dirty. cbn. repeat split; auto.
+        -- rewrite fill_fst. exact H3.
+        -- intros g nm e Hin.
+           destruct (fill_in_unread _ _ _ _ _ _ _ Hnth Hunr Hin) as [Hold|[Hnone Hrd]]; [apply (H4 g nm e Hold)|].
+           assert (Hin' : In (g, nm) (map idname (filter keep_topic (live_ s)))).
+           { rewrite <- Hs. apply in_map_iff. exists (g, nm, None). auto. }
+           destruct (read_slot_ok s g nm e (ex_intro _ r Hr) Hin' Hrd) as (_ & _ & tp & Hget & ->).
+           specialize (H5 g nm Hnone). rewrite Hget in H5. cbn in H5.
+           destruct (get_topic g nm L) as [tL|]; [|discriminate]. cbn in H5. exists tL. split; [reflexivity|]. congruence.
+        -- intros g nm Hin. apply H5. eapply fill_in_none. exact Hin.
+    + (* all read: the document *)
+      cbn. split; [exact Hdat|]. intros j' Hj'. inversion Hj'; subst j'. cbn.
+      pose proof (first_unread_none _ Efu) as Hall.
+      destruct Hjob as [Hc|(En & L & HL & H2 & H3 & H4 & H5)].
+      * exists (live_ s). split; [rewrite Hr; left; reflexivity|].
+        apply slot_doc_snapshot with (l := live_ s); auto.
+        intros t Ht. apply filter_In in Ht. apply get_topic_unique'; [apply I0|tauto].
+      * exists L. split; [exact HL|].
+        apply slot_doc_snapshot with (l := L); auto.
+        intros t Ht. apply filter_In in Ht. apply get_topic_unique'; [exact H2|tauto].
+  - destruct Hok as (c & Hlk & Hdoc & Hfh). rewrite Hlk.
+    destruct (Nat.eqb _ _); cbn; (split; [exact Hdat|]); intros j' Hj'.
+    + inversion Hj'; subst j'. cbn. exact Hjob.
+    + cbn in Hj'. rewrite Hl in Hj'. inversion Hj'; subst j'. rewrite Eph. exact Hjob.
+  - destruct Hok as (c & Hlk & Hdoc & Hc & Hfh). rewrite Hlk. cbn. split; [exact Hdat|].
+    intros j' Hj'. inversion Hj'; subst j'. cbn. exact Hjob.
+  - cbn. split; [exact Hdat|]. intros j' Hj'. inversion Hj'; subst j'. cbn. exact Hjob.
+  - destruct Hok as (c & Hlk & Hdoc & Hc & Hsy & Hfh). rewrite Hlk.
+    set (s1 := w_lo (w_lock (w_fs s (mkFS (Some c) (delete (j_tmp j) (tmps (fs s))))) None) (j_lo j)).
+    assert (G : forall ths, Lin (w_threads s1 ths) 0).
+    { intros ths. split; cbn.
+      - intros c' Hc'. inversion Hc'; subst c'. rewrite Hdoc. exact Hjob.
+      - discriminate. }
+    destruct (j_owner j) as [i|]; [|apply (G (threads s1))].
+    destruct (get_thread i (threads s1)) as [[|[] rest]|]; cbn; apply (G (threads s1)) || apply G.
+Qed.
+
+Lemma snapping_true : forall s, snapping s = true -> exists j, lock s = Some j /\ j_phase j = PSnap.
+Proof.
+  intros s H. unfold snapping in H. destruct (lock s) as [j|]; [|discriminate].
+  exists j. split; [reflexivity|]. destruct (j_phase j); try discriminate. reflexivity.
+Qed.
+
+Lemma snapping_of : forall s j, lock s = Some j -> j_phase j = PSnap -> snapping s = true.
+Proof. intros s j H1 H2. unfold snapping. rewrite H1, H2. reflexivity. Qed.
+
+Lemma snapping_not : forall s j, lock s = Some j -> j_phase j <> PSnap -> snapping s = false.
+Proof. intros s j H1 H2. unfold snapping. rewrite H1. destruct (j_phase j); try reflexivity. contradiction. Qed.
+
+Lemma Lin_indep : forall s n m, snapping s = false -> Lin s n -> Lin s m.
+Proof.
+  intros s n m Hs [A B]. split; [exact A|]. intros j Hj. specialize (B j Hj).
+  destruct (j_phase j) eqn:Eph; try exact B. rewrite (snapping_of s j Hj Eph) in Hs. discriminate.
+Qed.
+
+Lemma Lin_frame : forall s s' n,
+  lock s' = lock s -> live_ s' = live_ s -> dat (fs s') = dat (fs s) -> hist s' = hist s ->
+  Lin s n -> Lin s' (if snapping s then n else 0).
+Proof.
+  intros s s' n El Ev Ed Eh [A B].
+  assert (L1 : Lin s' n).
+  { split.
+    - rewrite Ed, Eh. exact A.
+    - intros j Hj. rewrite El in Hj. specialize (B j Hj). rewrite Eh, Ev.
+      destruct (j_phase j); try exact B.
+      destruct B as [B|(En & L & HLd)]; [left; exact B|right; split; [exact En|]].
+      exists L. unfold Dirty in *. rewrite Eh, Ev. exact HLd. }
+  destruct (snapping s) eqn:Es; [exact L1|].
+  apply Lin_indep with (n := n); [|exact L1]. unfold snapping in *. rewrite El. exact Es.
+Qed.
+
+Lemma Lin_new : forall s' o lo H0,
+  lock s' = Some (new_job o (live_ s') lo) ->
+  (forall c, dat (fs s') = Some c -> from_one H0 (f_doc c)) -> (forall d, from_one H0 d -> from_one (hist s') d) ->
+  Lin s' 0.
+Proof.
+  intros s' o lo H0 El A M. split.
+  - intros c Hc. apply M. apply A. exact Hc.
+  - intros j Hj. rewrite El in Hj. inversion Hj; subst j. cbn. left. apply Lin_new_slots.
+Qed.
+
+Lemma persist_leaves_snap : forall s j k, lock s = Some j -> j_phase j <> PSnap -> snapping (persist_step s j k) = false.
+Proof.
+  intros s j k Hl Hne. unfold snapping, persist_step. destruct (j_phase j) eqn:Eph; [contradiction| | | |].
+  - destruct (lookup (j_tmp j) (tmps (fs s))) as [c|]; [|rewrite Hl, Eph; reflexivity].
+    destruct (Nat.eqb _ _); cbn; [reflexivity|rewrite Hl, Eph; reflexivity].
+  - destruct (lookup (j_tmp j) (tmps (fs s))) as [c|]; [reflexivity|rewrite Hl, Eph; reflexivity].
+  - reflexivity.
+  - destruct (lookup (j_tmp j) (tmps (fs s))) as [c|]; [|rewrite Hl, Eph; reflexivity].
+    destruct (j_owner j) as [i|]; [|reflexivity]. cbn.
+    destruct (get_thread i (threads s)) as [[|[] rest]|]; reflexivity.
+Qed.
+
+Lemma Lin_step : forall s e n,
+  Inv0 s -> Inv1 s -> HistIds s -> Lin s n -> wcount n s e <= 1 -> Lin (step s e) (wcount n s e).
+Proof.
+  intros s e n I0 I1 HI HL Hle. unfold wcount in *.
+  assert (FRAME : forall s', step s e = s' -> is_mut_step s e = false ->
+            lock s' = lock s -> live_ s' = live_ s -> dat (fs s') = dat (fs s) -> hist s' = hist s ->
+            Lin (step s e) (if snapping (step s e) then if snapping s then if is_mut_step s e then S n else n else 0 else 0)).
+  { intros s' Es Em El Ev Ed Eh. rewrite Es, Em.
+    assert (Esn : snapping s' = snapping s) by (unfold snapping; rewrite El; reflexivity).
+    rewrite Esn. pose proof (Lin_frame s s' n El Ev Ed Eh HL) as F. destruct (snapping s); exact F. }
+  destruct e as [i o|i| |k| |].
+  - (* EStart *)
+    apply (FRAME (step s (EStart i o))); try reflexivity;
+      rewrite step_fixed; cbn [step_]; destruct (up s); try reflexivity; destruct (get_thread i (threads s)); reflexivity.
+  - (* EStep *)
+    destruct (get_thread i (threads s)) as [[|m rest]|] eqn:Hget.
+    + apply (FRAME s); try reflexivity; try (rewrite step_fixed; cbn [step_]; rewrite Hget; reflexivity).
+      cbn. rewrite Hget. reflexivity.
+    + assert (Es : step s (EStep i) = exec true s i m rest) by (rewrite step_fixed; cbn [step_]; rewrite Hget; reflexivity).
+      assert (Em : is_mut_step s (EStep i) = mut_micro m) by (cbn; rewrite Hget; reflexivity).
+      rewrite Es, Em in *. set (s' := exec true s i m rest) in *.
+      destruct (exec_shape_holds true s i m rest) as (_ & _ & Efs & Hlv & Hlock). fold s' in Efs, Hlv, Hlock.
+      assert (Hh : forall d, from_one (hist s) d -> from_one (hist s') d).
+      { intros d Hd. destruct Hlv as [[_ ->]|[-> _]]; [exact Hd|apply from_one_mono; exact Hd]. }
+      destruct HL as [A B].
+      assert (A' : forall c, dat (fs s') = Some c -> from_one (hist s') (f_doc c)).
+      { intros c Hc. rewrite Efs in Hc. apply Hh. apply A. exact Hc. }
+      destruct (lock s) as [j|] eqn:El.
+      * (* a job holds the lock: it keeps it *)
+        assert (El' : lock s' = Some j) by (destruct Hlock as [E|(E & _)]; [exact E|discriminate]).
+        destruct (j_phase j) eqn:Eph.
+        -- rewrite (snapping_of s' j El' Eph), (snapping_of s j El Eph) in *.
+           split; [exact A'|]. intros j' Hj'. rewrite El' in Hj'. inversion Hj'; subst j'. rewrite Eph.
+           apply Lin_exec_snap; auto. specialize (B j eq_refl). rewrite Eph in B. exact B.
+        -- rewrite (snapping_not s' j El') by congruence. split; [exact A'|]. intros j' Hj'. rewrite El' in Hj'. inversion Hj'; subst j'.
+           rewrite Eph. apply Hh. specialize (B j eq_refl). rewrite Eph in B. exact B.
+        -- rewrite (snapping_not s' j El') by congruence. split; [exact A'|]. intros j' Hj'. rewrite El' in Hj'. inversion Hj'; subst j'.
+           rewrite Eph. apply Hh. specialize (B j eq_refl). rewrite Eph in B. exact B.
+        -- rewrite (snapping_not s' j El') by congruence. split; [exact A'|]. intros j' Hj'. rewrite El' in Hj'. inversion Hj'; subst j'.
+           rewrite Eph. apply Hh. specialize (B j eq_refl). rewrite Eph in B. exact B.
+        -- rewrite (snapping_not s' j El') by congruence. split; [exact A'|]. intros j' Hj'. rewrite El' in Hj'. inversion Hj'; subst j'.
+           rewrite Eph. apply Hh. specialize (B j eq_refl). rewrite Eph in B. exact B.
+      * (* the lock was free: it still is, or this thread's MSync just took it *)
+        assert (Hsn : snapping s = false) by (unfold snapping; rewrite El; reflexivity). rewrite Hsn.
+        destruct Hlock as [E|(_ & E & Ev & _)].
+        -- assert (Hsn' : snapping s' = false) by (unfold snapping; rewrite E; reflexivity). rewrite Hsn'.
+           split; [exact A'|]. intros j' Hj'. congruence.
+        -- assert (Hsn' : snapping s' = true) by (unfold snapping; rewrite E; reflexivity). rewrite Hsn'.
+           split; [exact A'|]. intros j' Hj'. rewrite E in Hj'. inversion Hj'; subst j'. cbn. left. apply Lin_new_slots.
+    + apply (FRAME s); try reflexivity; try (rewrite step_fixed; cbn [step_]; rewrite Hget; reflexivity).
+      cbn. rewrite Hget. reflexivity.
+  - (* ETask *)
+    destruct (lock s) as [j|] eqn:El.
+    + apply (FRAME s); try reflexivity; try assumption; rewrite step_fixed; cbn [step_]; rewrite El; reflexivity.
+    + destruct (pending s) as [|p] eqn:Ep.
+      * apply (FRAME s); try reflexivity; try assumption; rewrite step_fixed; cbn [step_]; rewrite El, Ep; reflexivity.
+      * assert (Es : step s ETask = w_lock (w_pending s p) (Some (new_job None (live_ s) (length (hist s)))))
+          by (rewrite step_fixed; cbn [step_]; rewrite El, Ep; reflexivity).
+        rewrite Es. assert (Hsn : snapping s = false) by (unfold snapping; rewrite El; reflexivity). rewrite Hsn.
+        cbn [snapping lock w_lock new_job j_phase]. destruct HL as [A B].
+        split; [exact A|]. intros j' Hj'. cbn in Hj'. inversion Hj'; subst j'. cbn. left. apply Lin_new_slots.
+  - (* EPersist *)
+    destruct (lock s) as [j|] eqn:El.
+    + assert (Es : step s (EPersist k) = persist_step s j k) by (rewrite step_fixed; cbn [step_]; rewrite El; reflexivity).
+      rewrite Es. cbn [is_mut_step]. pose proof (Lin_persist s j k n I0 I1 HI El HL) as P.
+      destruct (snapping (persist_step s j k)) eqn:Esn'; [|exact P].
+      destruct (snapping s) eqn:Esn; [exact P|].
+      exfalso. destruct (j_phase j) eqn:Eph.
+      * rewrite (snapping_of s j El Eph) in Esn. discriminate.
+      * rewrite persist_leaves_snap in Esn'; [discriminate|exact El|congruence].
+      * rewrite persist_leaves_snap in Esn'; [discriminate|exact El|congruence].
+      * rewrite persist_leaves_snap in Esn'; [discriminate|exact El|congruence].
+      * rewrite persist_leaves_snap in Esn'; [discriminate|exact El|congruence].
+    + apply (FRAME s); try reflexivity; try assumption; rewrite step_fixed; cbn [step_]; rewrite El; reflexivity.
+  - (* EKill *)
+    destruct (up s) eqn:Hup.
+    + assert (Es : step s EKill = kill s) by (rewrite step_fixed; cbn [step_]; rewrite Hup; reflexivity).
+      rewrite Es. cbn [snapping lock kill]. destruct HL as [A B]. split; [exact A|]. intros j Hj. discriminate.
+    + apply (FRAME s); try reflexivity; try assumption; rewrite step_fixed; cbn [step_]; rewrite Hup; reflexivity.
+  - (* ERestart *)
+    destruct (up s || broken s) eqn:E.
+    + apply (FRAME s); try reflexivity; try assumption; rewrite step_fixed; cbn [step_]; rewrite E; reflexivity.
+    + assert (Hup : up s = false) by (destruct (up s); [discriminate|reflexivity]).
+      destruct (i1_down s I1 Hup) as (El & _ & _).
+      assert (Hsn : snapping s = false) by (unfold snapping; rewrite El; reflexivity). rewrite Hsn.
+      assert (Es : step s ERestart = restart s) by (rewrite step_fixed; cbn [step_]; rewrite E; reflexivity).
+      rewrite Es. destruct HL as [A B].
+      assert (G : forall l nid, Lin (boot s l nid) (if snapping (boot s l nid) then 0 else 0)).
+      { intros l nid. cbn [snapping lock boot new_job j_phase]. split; cbn.
+        - intros c Hc. apply from_one_mono. apply A. exact Hc.
+        - intros j Hj. inversion Hj; subst j. cbn. left. apply Lin_new_slots. }
+      unfold restart. destruct (dat (fs s)) as [c|] eqn:Ed; [|apply G].
+      destruct (complete c).
+      * destruct (load (f_doc c) (next_id s)) as [l nid]. apply G.
+      * cbn. split; cbn; [rewrite Ed; exact A|discriminate].
+Qed.
+
+Record InvS (s : st) : Prop := { is0 : Inv0 s; is1 : Inv1 s; ish : HistIds s }.
+Lemma InvS_step : forall s e, InvS s -> InvS (step s e).
+Proof. intros s e [A B C]. constructor; [apply Inv0_step|apply Inv1_step|apply HistIds_step]; assumption. Qed.
+Lemma InvS_init : InvS init.
+Proof. constructor; [apply Inv0_init|apply Inv1_init|constructor]. Qed.
+
+Lemma Lin_run : forall evs s n, InvS s -> Lin s n -> single_from s n evs -> exists n', Lin (run s evs) n'.
+Proof.
+  induction evs as [|e evs IH]; intros s n IS HL Hs; cbn; [eauto|].
+  destruct Hs as [Hle Hs]. apply (IH (step s e) (wcount n s e)); [apply InvS_step; exact IS| |exact Hs].
+  destruct IS as [A B C]. apply Lin_step; assumption.
+Qed.
+
+(* C06_atomic_outside: in every schedule in which no GetMetadata has two mutation steps
+   between its topic reads (the complement of known finding K8), nsqd.dat is the persisted
+   form of ONE live state the daemon passed through *)
+Lemma atomic_outside : forall evs, Single evs ->
+  let s := run init evs in
+  forall c, dat (fs s) = Some c -> exists L, In L (hist s) /\ f_doc c = snapshot L.
+Proof.
+  intros evs Hs s c Hc.
+  destruct (Lin_run evs init 0 InvS_init) as [n' [A _]]; [|exact Hs|apply A; exact Hc].
+  split; cbn; [discriminate|discriminate].
+Qed.
+
+(* ------------------------------------------------------------------ a sequential client never leaves that region *)
+Fixpoint seq_from (s : st) (evs : list ev) : Prop :=
+  match evs with
+  | [] => True
+  | e :: r => length (threads s) <= 1 /\ seq_from (step s e) r
+  end.
+(* at most one request in progress at any time *)
+Definition Sequential (evs : list ev) : Prop := seq_from init evs.
+
+Definition Kinv (s : st) (n : nat) : Prop :=
+  n <= 1 /\ (snapping s = true -> n = 1 -> forall i p, In (i, p) (threads s) -> avail p = 0).
+
+Lemma avail_le_nrel : forall p, avail p <= nrel p.
+Proof. intros [|[] p]; cbn; lia. Qed.
+
+Lemma one_thread : forall (ths : list (N * list micro)) i p,
+  length ths <= 1 -> get_thread i ths = Some p -> ths = [(i, p)].
+Proof.
+  intros [|[k q] [|y r]] i p H Hg; cbn in *; try lia; try discriminate.
+  destruct (N.eqb_spec k i) as [->|]; [inversion Hg; reflexivity|discriminate].
+Qed.
+
+Lemma put_one : forall i p q, put_thread i q [(i, p)] = match q with [] => [] | _ => [(i, q)] end.
+Proof. intros i p q. unfold put_thread. destruct q; cbn; rewrite N.eqb_refl; reflexivity. Qed.
+
+(* a mutation micro-step is never blocked: the thread moves on to the rest of its program *)
+Lemma exec_threads_mut : forall pad s i m rest, mut_micro m = true ->
+  threads (exec pad s i m rest) = put_thread i rest (threads s).
+Proof.
+  intros pad s i m rest H. destruct m; try discriminate; cbn [exec];
+    repeat match goal with
+           | |- context [match ?c with Some _ => _ | None => _ end] => destruct c
+           | |- context [if ?c then _ else _] => destruct c
+           end; cbn; rewrite ?spawn_threads; reflexivity.
+Qed.
+
+Lemma exec_enter_blocked : forall pad s i o rest j, lock s = Some j -> exec pad s i (MEnter o) rest = s.
+Proof. intros. cbn [exec]. unfold lock_free. rewrite H. reflexivity. Qed.
+
+Lemma prog_after_nonmut : forall pad l m rest p',
+  (forall o, m <> MEnter o) -> avail (m :: rest) = 0 ->
+  (p' = rest \/ p' = skip_drop rest \/ (exists o, m = MEnter o /\ p' = enter pad o l ++ rest) \/
+   (exists g x c a, m = MFindChan g x c a /\ p' = found_chan pad g x c a l ++ rest)) ->
+  nrel p' = 0.
+Proof.
+  intros pad l m rest p' Hne Hav Hpp.
+  assert (Hn : nrel (m :: rest) = 0) by (destruct m; cbn in *; try exact Hav; exfalso; eapply Hne; reflexivity).
+  rewrite nrel_cons in Hn.
+  destruct Hpp as [->|[->|[(o & -> & _)|(g & x & c & a & -> & _)]]].
+  - lia.
+  - pose proof (nrel_skip_drop rest). lia.
+  - exfalso. eapply Hne. reflexivity.
+  - cbn in Hn. lia.
+Qed.
+
+Lemma Kinv_step : forall s e n,
+  Inv1 s -> N1 s -> length (threads s) <= 1 -> Kinv s n -> Kinv (step s e) (wcount n s e).
+Proof.
+  intros s e n I1 HN Hone [Hn HK]. unfold wcount.
+  destruct (snapping (step s e)) eqn:Esn'; [|split; [lia|intros; discriminate]].
+  destruct (snapping s) eqn:Esn; [|split; [lia|intros _ H; discriminate]].
+  destruct (snapping_true _ Esn) as (j & El & Eph).
+  destruct e as [i o|i| |k| |]; cbn [is_mut_step].
+  - (* EStart *)
+    split; [exact Hn|]. intros _ En i0 p Hin.
+    rewrite step_fixed in Hin. cbn [step_] in Hin. destruct (up s); [|eapply HK; eauto].
+    destruct (get_thread i (threads s)); [eapply HK; eauto|]. cbn in Hin.
+    apply in_app_or in Hin. destruct Hin as [Hin|[Hin|[]]]; [eapply HK; eauto|]. inversion Hin; subst. reflexivity.
+  - (* EStep *)
+    destruct (get_thread i (threads s)) as [[|m rest]|] eqn:Hget.
+    + split; [exact Hn|]. rewrite step_fixed. cbn [step_]. rewrite Hget. intros _. apply HK. reflexivity.
+    + assert (Hp1 : nrel (m :: rest) <= 1) by (eapply HN; apply get_thread_in; exact Hget).
+      pose proof (one_thread _ _ _ Hone Hget) as Eths.
+      assert (Es : step s (EStep i) = exec true s i m rest) by (rewrite step_fixed; cbn [step_]; rewrite Hget; reflexivity).
+      rewrite Es in *.
+      destruct (mut_micro m) eqn:Em.
+      * (* a mutation: the first in this window, and the request has none left *)
+        assert (Hrel : relevant m = true) by (destruct m; try discriminate; reflexivity).
+        assert (Hne : forall o, m <> MEnter o) by (intros o E; subst m; discriminate).
+        assert (n = 0).
+        { destruct n as [|[|n]]; [reflexivity| |lia]. exfalso.
+          specialize (HK eq_refl eq_refl i (m :: rest) (get_thread_in _ _ _ Hget)).
+          rewrite nrel_cons, Hrel in Hp1.
+          destruct m; try discriminate; cbn in HK; lia. }
+        subst n. split; [lia|]. intros _ _ i0 p Hin.
+        rewrite exec_threads_mut in Hin by exact Em. rewrite Eths, put_one in Hin.
+        rewrite nrel_cons, Hrel in Hp1.
+        destruct rest as [|m1 r1]; [contradiction|]. destruct Hin as [Hin|[]]. inversion Hin; subst.
+        pose proof (avail_le_nrel (m1 :: r1)). lia.
+      * split; [exact Hn|]. intros _ En i0 p Hin.
+        specialize (HK eq_refl En).
+        assert (Hav : avail (m :: rest) = 0) by (apply (HK i); apply get_thread_in; exact Hget).
+        destruct (exec_threads true s i m rest) as [E|[(p' & E & Hpp)|(Em' & Hlk & _)]].
+        -- rewrite E in Hin. eapply HK. exact Hin.
+        -- (* the program was replaced *)
+           assert (Hcase : (exists o, m = MEnter o) \/ (forall o, m <> MEnter o))
+             by (destruct m; try (right; intros o' E'; discriminate); left; eauto).
+           destruct Hcase as [(o & ->)|Hne].
+           ++ rewrite (exec_enter_blocked true s i o rest j El) in Hin. eapply HK. exact Hin.
+           ++ pose proof (prog_after_nonmut true (live_ s) m rest p' Hne Hav Hpp) as Hz.
+              rewrite E, Eths, put_one in Hin.
+              destruct p' as [|m1 r1]; [contradiction|]. destruct Hin as [Hin|[]]. inversion Hin; subst.
+              pose proof (avail_le_nrel (m1 :: r1)). lia.
+        -- congruence.
+    + split; [exact Hn|]. rewrite step_fixed. cbn [step_]. rewrite Hget. intros _. apply HK. reflexivity.
+  - (* ETask: the lock is held *)
+    split; [exact Hn|]. rewrite step_fixed. cbn [step_]. rewrite El. intros _. apply HK. reflexivity.
+  - (* EPersist: still reading topics, the thread list is untouched *)
+    split; [exact Hn|]. intros _ En i0 p Hin.
+    rewrite step_fixed in Hin, Esn'. cbn [step_] in Hin, Esn'. rewrite El in Hin, Esn'.
+    destruct (persist_step_threads s j k) as [E|(i1 & rest & _ & _ & _ & Hnone)].
+    + rewrite E in Hin. eapply HK; eauto.
+    + unfold snapping in Esn'. rewrite Hnone in Esn'. discriminate.
+  - (* EKill *)
+    exfalso. rewrite step_fixed in Esn'. cbn [step_] in Esn'. destruct (i1_job s I1 j El) as [Hup _]. rewrite Hup in Esn'.
+    cbn in Esn'. discriminate.
+  - (* ERestart: the daemon is up *)
+    split; [exact Hn|]. rewrite step_fixed. cbn [step_]. destruct (i1_job s I1 j El) as [Hup _]. rewrite Hup. cbn. intros _. apply HK. reflexivity.
+Qed.
+
+Lemma seq_single : forall evs s n, Inv1 s -> N1 s -> Kinv s n -> seq_from s evs -> single_from s n evs.
+Proof.
+  induction evs as [|e evs IH]; intros s n I1 HN HK Hs; cbn; [exact I|].
+  destruct Hs as [Hone Hs]. pose proof (Kinv_step s e n I1 HN Hone HK) as HK'.
+  split; [apply HK'|]. apply IH; [apply Inv1_step; exact I1|apply N1_step; exact HN|exact HK'|exact Hs].
+Qed.
+
+Lemma sequential_single : forall evs, Sequential evs -> Single evs.
+Proof.
+  intros evs H. apply seq_single; [apply Inv1_init|intros i p []| |exact H].
+  split; [lia|]. intros H0. discriminate.
+Qed.
+
+(* C06_atomic_sequential: with at most one request in progress at any time (any number of
+   Notify goroutines, any interleaving of their persists with the request's steps, kills
+   and restarts) nsqd.dat is the persisted form of ONE live state the daemon passed through *)
+Lemma atomic_sequential : forall evs, Sequential evs ->
+  let s := run init evs in
+  forall c, dat (fs s) = Some c -> exists L, In L (hist s) /\ f_doc c = snapshot L.
+Proof. intros evs H. apply atomic_outside. apply sequential_single. exact H. Qed.
+
+(* ------------------------------------------------------------------ the full statement is false (known finding K8) *)
+Definition atomic_full : Prop :=
+  forall evs, let s := run init evs in
+  forall c, dat (fs s) = Some c -> exists L, In L (hist s) /\ f_doc c = snapshot L.
+
+Definition k8_a : name := [97%N].
+Definition k8_b : name := [98%N].
+Definition k8_x : name := [120%N].
+Definition k8_y : name := [121%N].
+Definition k8_P : list ev := repeat (EPersist 4096%N) 8.
+Definition k8_steps (i : N) (n : nat) : list ev := repeat (EStep i) n.
+(* topics a and b, then channel b/y, then channel a/x are created; the daemon is idle.  Requests 5 (delete a/x) and 6 (delete b/y)
+   both look their channel up and mark it exiting (two Notify goroutines pending).  One of
+   the Notify persists takes the lock and reads topic a (x still listed).  Request 5 removes
+   a/x from its map, then request 6 removes b/y.  The persist reads topic b (no y), writes,
+   renames: nsqd.dat = {a/x, b}, a set of channels the daemon never had. *)
+Definition k8_schedule : list ev :=
+  [ERestart] ++ k8_P
+  ++ [EStart 1%N (OCreateTopic k8_a)] ++ k8_steps 1%N 4 ++ [ETask] ++ k8_P
+  ++ [EStart 2%N (OCreateTopic k8_b)] ++ k8_steps 2%N 4 ++ [ETask] ++ k8_P
+  ++ [EStart 3%N (OCreateChan k8_b k8_y)] ++ k8_steps 3%N 4 ++ [ETask] ++ k8_P
+  ++ [EStart 4%N (OCreateChan k8_a k8_x)] ++ k8_steps 4%N 4 ++ [ETask] ++ k8_P
+  ++ [EStart 5%N (ODeleteChan k8_a k8_x)] ++ k8_steps 5%N 3      (* lookup, find channel, Channel.exit *)
+  ++ [EStart 6%N (ODeleteChan k8_b k8_y)] ++ k8_steps 6%N 3
+  ++ [ETask; EPersist 0%N]                                        (* the persist reads topic a *)
+  ++ [EStep 5%N; EStep 6%N]                                       (* a/x leaves its map, then b/y *)
+  ++ k8_P.                                                        (* reads topic b, writes, renames *)
+
+(* exact (order-sensitive) equality of documents, for the witness check *)
+Definition dchan_eqb (a b : dchan) : bool := name_eqb (dc_name a) (dc_name b) && Bool.eqb (dc_paused a) (dc_paused b).
+Definition dtopic_eqb (a b : dtopic) : bool :=
+  name_eqb (dt_name a) (dt_name b) && Bool.eqb (dt_paused a) (dt_paused b) && list_eqb dchan_eqb (dt_chans a) (dt_chans b).
+Definition doc_eqb (a b : doc) : bool := list_eqb dtopic_eqb a b.
+
+Lemma list_eqb_refl {A} (f : A -> A -> bool) : (forall x, f x x = true) -> forall l, list_eqb f l l = true.
+Proof. intros H l. induction l as [|x l IH]; cbn; [reflexivity|]. rewrite H, IH. reflexivity. Qed.
+
+Lemma doc_eqb_refl : forall d, doc_eqb d d = true.
+Proof.
+  apply list_eqb_refl. intros [n p cs]. unfold dtopic_eqb. cbn. rewrite name_eqb_refl, Bool.eqb_reflx. cbn.
+  apply list_eqb_refl. intros [cn cp]. unfold dchan_eqb. cbn. rewrite name_eqb_refl, Bool.eqb_reflx. reflexivity.
+Qed.
+
+(* the final state of that schedule, evaluated once *)
+Definition k8_state : st := Eval vm_compute in run init k8_schedule.
+Lemma k8_state_eq : run init k8_schedule = k8_state.
+Proof. vm_compute. reflexivity. Qed.
+
+Definition k8_check : bool :=
+  match dat (fs k8_state) with
+  | Some c => doc_eqb (f_doc c) [mkDT k8_a false [mkDC k8_x false]; mkDT k8_b false []]
+              && forallb (fun L => negb (doc_eqb (f_doc c) (snapshot L))) (hist k8_state)
+  | None => false
+  end.
+
+Lemma k8_check_true : k8_check = true.
+Proof. vm_compute. reflexivity. Qed.
+
+Lemma atomic_full_refuted : ~ atomic_full.
+Proof.
+  intros H. pose proof k8_check_true as K. unfold k8_check in K.
+  specialize (H k8_schedule). cbv zeta in H. rewrite k8_state_eq in H.
+  destruct (dat (fs k8_state)) as [c|]; [|discriminate].
+  destruct (H c eq_refl) as (L & HL & EL).
+  apply andb_true_iff in K. destruct K as [_ K]. rewrite forallb_forall in K. specialize (K L HL).
+  rewrite EL, doc_eqb_refl in K. discriminate.
+Qed.
